@@ -1,6 +1,7 @@
 import EkwVerif.Drive.Util
 import EkwVerif.Model.Lower
 import EkwVerif.Model.Runner
+import EkwVerif.Model.YieldRef
 open Lean EkwVerif.Drive EkwVerif.Lower EkwVerif.Runner
 
 def valOf (j : Json) : Val :=
@@ -193,6 +194,15 @@ def c10Step (_ : Unit) (j : Json) : Unit × Json :=
         | .error e => (m, Json.str ("error:" ++ errJ e)))
       | _ => (m, Json.null)
     ((), Json.mkObj [("result", res), ("loc", canonAssoc m'.loc), ("bufs", canonKeys m'.bufs), ("shm", canonAssoc m'.shm)])
+  | "ref_of" =>
+    -- the dataset by which a consumer refers to the element at position k of a yields dimension with n coordinates
+    -- (withYields + refOf, as in c10_yield_coordinate)
+    let r := (yieldRef (getStr j "parent") (getNat j "n") (getNat j "k")).source
+    ((), Json.mkObj [("task", Json.str r.task), ("output", Json.str r.output)])
+  | "all_published" =>
+    -- notify.all_outputs_published for the notices of one task, delivered in the given order (repetitions allowed)
+    let n := getNat j "n_outputs"
+    ((), Json.mkObj [("flags", Json.arr ((completionFlags n [] ((getArr j "notices").map asStr)).map Json.bool).toArray)])
   | "is_last" =>
     let outs := (getArr j "outs").map asStr
     ((), Json.mkObj [("is_last", Json.arr (outs.map (fun o => Json.arr #[Json.str o, boolOptJ (isLastOutputOf outs o)])).toArray)])
